@@ -154,6 +154,14 @@ class Evaluator:
             for k, s in enumerate(stmts):
                 if isinstance(s, ast.If):
                     t = self.expr(s.test, env)
+                    if not is_const(t) and not s.orelse and \
+                            self.only_raises(stmts[k + 1:]) and \
+                            not self.only_raises(s.body):
+                        # `if ok: return ...` followed by nothing but a
+                        # raise: the inverted form of a validation, which
+                        # is assumed to pass
+                        return self.run_top(list(s.body) + stmts[k + 1:],
+                                            dict(env), forks)
                     if not is_const(t) and not self.only_raises(s.body):
                         if forks >= 3:
                             raise Undecided(
